@@ -21,6 +21,7 @@ func init() {
 		Quick:      all("./encoding/prototext"),
 		Thorough:   all("./..."),
 		Run: func(c *Ctx) {
+			c.ruleGenDetMarshal("R-ANY-DET-MARSHAL", []string{"encoding/prototext"}, map[string]string{}, 1)
 			c.ruleFloatBits("R-FLOATBITS", inPkgs("internal/encoding/text", "encoding/prototext"), 1)
 			c.ruleKindContext("R-KIND-CONTEXT", []string{"encoding/prototext", "internal/encoding/text"}, 20)
 			c.ruleResolverProp("R-RESOLVER-PROP", []string{"encoding/prototext"}, 3)
@@ -34,12 +35,14 @@ func init() {
 		Technique:  "SSA width-provenance dataflow + kind-context table conformance + finite case analysis of the bytes escaper over all byte values (static)",
 		Explain:    "Decides structural necessary conditions of default-value round trip: (1) a FloatKind default is never parsed at width 64 and narrowed (double rounding); (2) in every Kind-dependent branch of defval.Marshal/Unmarshal the parse/format width constants and Value constructors/accessors agree with the Kind; (3) for every byte value 0..255 (finite case analysis of marshalBytes) a bytes default is written raw only if printable and not a quote/backslash, as a C escape whose letter denotes the byte, or as a numeric escape of the fixed maximal width the text-format reader consumes, so the greedy reader recovers the byte whatever follows.",
 		NotCovered: "the text-format reader side of the bytes escape (decided under C25), enum lookup; value-level equality.",
-		Quick:      all("./internal/encoding/defval"),
+		Quick:      all("./internal/encoding/defval", "./reflect/protodesc"),
 		Thorough:   all("./..."),
 		Run: func(c *Ctx) {
 			c.ruleFloatBits("R-FLOATBITS", inPkgs("internal/encoding/defval", "internal/filedesc", "reflect/protodesc"), 1)
 			c.ruleKindContext("R-KIND-CONTEXT", []string{"internal/encoding/defval"}, 10)
 			c.ruleDefvalBytesEscape("R-DEFVAL-BYTES-ESCAPE")
+			c.rulePresenceNotValue("R-PRESENCE-NOT-VALUE", 4)
+			c.ruleDefvalReaders("R-DEFVAL-ENUM-NUMBER", "R-DEFVAL-BYTES-READER")
 		},
 	})
 }
